@@ -127,7 +127,13 @@ type StmtCtx struct {
 	Text   string
 	Occ    int
 	Mut    bool
-	Errno  int // set for AfterStmt
+	Errno  int    // set for AfterStmt
+	Note   string // summary of the reply (AfterStmt)
+	// Delayed is the injected delay of the reply: the statement took effect but the caller may
+	// have run into its own deadline before the reply arrived.
+	Delayed time.Duration
+	// ReplyDropped: the statement took effect but the connection was dropped instead of a reply.
+	ReplyDropped bool
 }
 
 // World is the whole simulated MySQL side.
